@@ -53,11 +53,14 @@ def run(ctx):
         else:
             r.bad("lookup", "the glob record is not looked up by the matched index", fn=f)
         # accepting test and whitelist decision via HIR
-        ifs = [x for x in H.find(f.hir, lambda x: x.get("k") == "if" and "is_only_dir" in H.canon(x["c"]))]
+        envh = H.LetEnv(f.hir)
+        ifs = [x for x in H.find(f.hir, lambda x: x.get("k") == "if" and "is_only_dir" in H.canon(x["c"], envh))]
         if len(ifs) != 1:
             r.bad("accept", "anchor-missing: no `is_only_dir` test in matched_stripped", fn=f)
         else:
-            ok, detail = H.equivalent(ifs[0]["c"], ["glob.is_only_dir()", "is_dir"], lambda v: (not v["glob.is_only_dir()"]) or v["is_dir"])
+            ok, detail = H.equivalent(ifs[0]["c"], ["only_dir", "is_dir"],
+                                      lambda v: (not v["only_dir"]) or v["is_dir"], env=envh,
+                                      rename=lambda a: "only_dir" if a.endswith(".is_only_dir()") else a)
             if ok:
                 r.ok("accept", "accepted ⇔ ¬is_only_dir ∨ is_dir (%s)" % detail, fn=f)
             else:
